@@ -130,7 +130,8 @@ CHECKS = {
  "C12": {
   "category": "proof",
   "text": "Proved: the close callback runs only in ov_clear, once per source the library came to own and never after a failed open (Ledger.v, all op sequences); "
-          "no read/seek/half-rate operation of VFile.v modifies the link and page tables built at open, from which every later seek is computed. That each faulted call "
+          "no read/seek/half-rate operation of VFile.v modifies the link and page tables built at open, from which every later seek is computed; the seek theorems of C07 hold from ANY "
+          "handle state with an open file (whatever an earlier failed or successful call left behind), and every seek terminates from any state (C03). That each faulted call "
           "returns a documented code, terminates, leaves the source unclosed, that a failed open zeroes the handle, and that after the fault a seek + reads equal a "
           "never-faulted twin bit for bit is decided by systematic fault enumeration on every run (5 fault kinds x one-shot/persisting x callback index k x open / read / "
           "pcm-seek / page+raw+time-seek / lapped+half-rate scenarios).",
